@@ -1,4 +1,4 @@
--- Obligations about internal/strings/strings.go.  Fnv32: the loop is a left fold of the FNV-1 step and never
+-- Obligations about internal/strings/strings.go.  ToUpper = Model/Resp.lean `upper` for every input (UTF-8 `range` included).  Fnv32: the loop is a left fold of the FNV-1 step and never
 -- panics (no model counterpart: direct property).  ToUpper: the freshly translated function IS the snapshot one,
 -- for which Proofs/SnapStrings.lean shows: on ASCII input it is the bytewise map a–z ↦ A–Z (hence length-preserving,
 -- idempotent, touches only a–z).  On non-ASCII input ToUpper is not a case mapping (examples below; the model
@@ -47,6 +47,11 @@ theorem strings_ToUpper_is_snapshot : strings.ToUpper = Snap.strings.ToUpper := 
 
 theorem strings_ToUpper_ascii (v : Bytes) (h : isAscii v) : strings.ToUpper v = .ok (v.map upByte) := by
   rw [strings_ToUpper_is_snapshot]; exact ToUpper_ascii v h
+
+/-- **for every input** the freshly translated ToUpper is the model's `Resp.upper` (Model/Resp.lean, the function the
+    RESP reader model uses for command and option names in C15/C16) and does not panic -/
+theorem strings_ToUpper_eq_model (v : Bytes) : strings.ToUpper v = .ok (Resp.upper v) := by
+  rw [strings_ToUpper_is_snapshot]; exact ToUpper_eq_model v
 
 /-- length-preserving, idempotent, and the identity outside a–z, on ASCII input -/
 theorem strings_ToUpper_props (v : Bytes) (h : isAscii v) :
